@@ -799,6 +799,187 @@ def model_check(case, drv):
   return per_case.get(case["idx"], []), stats
 
 
+# ------------------------------------------------------------------------------------------ K3: reveal_type oracle
+def _split_top(t):
+  out, depth, cur = [], 0, ""
+  for ch in t:
+    if ch == "[":
+      depth += 1
+    if ch == "]":
+      depth -= 1
+    if ch == "," and depth == 0:
+      out.append(cur.strip())
+      cur = ""
+    else:
+      cur += ch
+  if cur.strip():
+    out.append(cur.strip())
+  return out
+
+
+def norm_reveal(t):
+  """Canonical form of a reveal_type string: Optional -> Union, unions flattened, sorted, and reduced by the PEP 484
+  promotions the stub optimiser applies to what it writes (bool < int < float < complex): the in-module view keeps
+  `Union[bool, int]` where the stub says `int`."""
+  import re
+  if t is None:
+    return None
+  t = t.strip()
+  m = re.match(r"^(\w[\w.]*)\[(.*)\]$", t)
+  if not m:
+    return t
+  head, args = m.group(1), [norm_reveal(a) for a in _split_top(m.group(2))]
+  if head == "Optional":
+    head, args = "Union", args + ["None"]
+  if head == "Union":
+    flat = []
+    for a in args:
+      mm = re.match(r"^Union\[(.*)\]$", a)
+      flat += _split_top(mm.group(1)) if mm else [a]
+    st = set(flat)
+    if st & {"int", "float", "complex"}:
+      st.discard("bool")
+    if st & {"float", "complex"}:
+      st.discard("int")
+    if "complex" in st:
+      st.discard("float")
+    if len(st) == 1:
+      return next(iter(st))
+    return "Union[%s]" % ", ".join(sorted(st))
+  return "%s[%s]" % (head, ", ".join(args))
+
+
+def _reveal(src, opts):
+  io = _S["io"]
+  ret, _ = io.generate_pyi(src, opts)
+  out, others = {}, []
+  for e in ret.context.errorlog.unique_sorted_errors():
+    if e.name == "reveal-type":
+      out[e.line] = str(e.message)
+    else:
+      others.append([e.name, e.line, str(e.message)[:120]])
+  return out, others
+
+
+def chain_program(rng):
+  """(dep source, upstream source): the upstream module `a` imports the analysed module `dep` and mentions its
+  top-level and nested classes (values, call results, containers, base classes); it also binds classes to second
+  names (some of which are string suffixes of the class name)."""
+  gd = Gen(rng)
+  ditems = [["_L = [0, 0, 0]"]]
+  for i in range(rng.randrange(1, 3)):
+    ditems.append(gd.klass("D%d" % i, "D%d" % i, "", 1))
+  ditems.append(["dx = %s" % gd.value(1)])
+  dsrc = program_src(ditems)
+  dclasses = list(gd.classes)
+  ga = Gen(rng)
+  items = ga.program()
+  items.insert(1, ["import dep"])
+  top = [c for c in dclasses if "." not in c]
+  k = 0
+  for c in dclasses[:3]:
+    r = rng.random()
+    if r < 0.3:
+      items.append(["dv%d = dep.%s()" % (k, c)])
+    elif r < 0.55:
+      items.append(["def dmk%d():" % k, "  return dep.%s()" % c])
+    elif r < 0.75:
+      items.append(["dl%d = [dep.%s(), dep.%s()]" % (k, c, c)])
+    else:
+      items.append(["dt%d = (dep.%s, 1)" % (k, c)])
+    k += 1
+  if top and rng.random() < 0.7:
+    items.append(["class Sub%s(dep.%s):" % (top[0], top[0]), "  sub_attr = 1"])
+  own = [c for c in ga.classes if "." not in c]
+  for j, c in enumerate(own[:2]):
+    # `Base<C>`-style class with `<C>`-style alias: the alias name is a suffix of the class name
+    items.append(["class My%s(%s):" % (c, c), "  my_attr = %s" % ga.scalar()])
+    items.append(["Al%s = My%s" % (c, c)] if rng.random() < 0.5 else ["y%s = My%s" % (c, c)])
+    items.append(["%sx = My%s" % (c, c)])
+  return dsrc, program_src(items)
+
+
+def chain_task(args):
+  """K3: the property read literally.  Upstream reveal_type (what A's analysis infers) against downstream reveal_type
+  of the same expression through A's emitted stub, per transport; dependency chain dep <- a <- b."""
+  import re
+  idx, dsrc, asrc = args
+  io, config = _S["io"], _S["config"]
+  d = os.path.join(WORK, "p%d" % os.getpid(), "k%d" % idx)
+  out = {"idx": idx, "dep": dsrc, "src": asrc, "bad": [], "reads": 0, "skipped": None}
+  try:
+    os.makedirs(d, exist_ok=True)
+    # dep
+    o = config.Options.create(python_version=PYVER, module_name="dep")
+    ret, pyi = io.generate_pyi(dsrc, o)
+    if _errs(ret):
+      out["skipped"] = "dep has errors"
+      return out
+    open(os.path.join(d, "dep.pyi"), "w").write(pyi)
+    o2 = config.Options.create(python_version=PYVER, module_name="dep", output=os.path.join(d, "dep.pickled"))
+    o2.tweak(input="dep.py")
+    io.write_pickle(ret.ast, o2, ret.context.loader)
+    # a
+    o = config.Options.create(python_version=PYVER, module_name="a", pythonpath=d)
+    ret, apyi = io.generate_pyi(asrc, o)
+    if _errs(ret):
+      out["skipped"] = "upstream has errors"
+      return out
+    open(os.path.join(d, "a.pyi"), "w").write(apyi)
+    o2 = config.Options.create(python_version=PYVER, module_name="a", pythonpath=d, output=os.path.join(d, "a.pickled"))
+    o2.tweak(input="a.py")
+    io.write_pickle(ret.ast, o2, ret.context.loader)
+    out["pyi"] = apyi
+    _, reads = derive_reads(apyi)
+    exprs = [r["expr"] for r in reads if not r["expr"].startswith("from ")]
+    # aliases of classes are `Alias: type[C]` constants or aliases in the stub: read them all
+    parser = _S["parser"]
+    ast = parser.parse_string(apyi, filename="a.pyi", name="a", options=parser.PyiOptions(python_version=PYVER))
+    for al in ast.aliases:
+      n = al.name[2:] if al.name.startswith("a.") else al.name
+      if not n.startswith("_") and "." not in n and n != "dep":
+        exprs += ["a.%s" % n]
+    exprs = list(dict.fromkeys(exprs))
+    n0 = asrc.count("\n")
+    up, _ = _reveal(asrc + "".join("reveal_type(%s)\n" % e[2:] for e in exprs),
+                    config.Options.create(python_version=PYVER, module_name="a", pythonpath=d))
+    bsrc = "import a\n" + "".join("reveal_type(%s)\n" % e for e in exprs)
+    for tr in TRANSPORTS:
+      if tr == "path":
+        opts = config.Options.create(python_version=PYVER, module_name="b", pythonpath=d)
+      elif tr == "imap":
+        opts = config.Options.create(python_version=PYVER, module_name="b", pythonpath="",
+                                     imports_map_items=[("a", os.path.join(d, "a.pyi")), ("dep", os.path.join(d, "dep.pyi"))])
+      else:
+        opts = config.Options.create(python_version=PYVER, module_name="b", pythonpath="", use_pickled_files=True,
+                                     imports_map_items=[("a", os.path.join(d, "a.pickled")),
+                                                        ("dep", os.path.join(d, "dep.pickled"))])
+      try:
+        dn, others = _reveal(bsrc, opts)
+      except Exception as e:  # pylint: disable=broad-except
+        out["bad"].append({"transport": tr, "what": "downstream analysis raises", "exception": repr(e)[:300]})
+        continue
+      if others:
+        out["bad"].append({"transport": tr, "what": "spurious downstream errors", "errors": others[:4]})
+      for j, e in enumerate(exprs):
+        u = norm_reveal(up.get(n0 + 1 + j))
+        w = dn.get(2 + j)
+        w = norm_reveal(None if w is None else re.sub(r"\ba\.", "", w))
+        if u is None:
+          continue
+        if u == "Any" and re.match(r"a\.[\w.]+\.ia\d+$", e):
+          continue     # an instance attribute read on the class object: an attribute-error upstream, a constant in the stub
+        out["reads"] += 1
+        if u != w:
+          out["bad"].append({"transport": tr, "expr": e, "upstream_infers": u, "downstream_sees": w})
+  except Exception as e:  # pylint: disable=broad-except
+    out["exception"] = repr(e)
+    out["trace"] = traceback.format_exc()[-1500:]
+  finally:
+    shutil.rmtree(d, ignore_errors=True)
+  return out
+
+
 def correspond(res, rng, tier):
   prepare()
   drv = common.ensure_driver("drv_c06")
@@ -811,6 +992,23 @@ def correspond(res, rng, tier):
     npairs = 110 if tier == "quick" else 700
     programs = [Gen(rng).program() for _ in range(npairs)]
     cases = eval_pairs(pool, [program_src(p) for p in programs])
+    nchain = 48 if tier == "quick" else 400
+    chains = pool.map(chain_task, [(i,) + chain_program(rng) for i in range(nchain)], chunksize=1)
+  k3 = {"chains": len(chains), "skipped": 0, "reads_compared": 0, "failing_chains": 0}
+  for c in chains:
+    if c.get("skipped"):
+      k3["skipped"] += 1
+      continue
+    if "exception" in c:
+      disagreements.append({"stage": "K3", "what": "analysis raises", "dep": c["dep"], "src": c["src"],
+                            "exception": c["exception"], "trace": c.get("trace")})
+      continue
+    k3["reads_compared"] += c["reads"]
+    if c["bad"]:
+      k3["failing_chains"] += 1
+      disagreements.append({"stage": "K3-oracle", "what": "downstream type differs from what the upstream analysis infers",
+                            "failures": c["bad"][:4], "dep": c["dep"], "src": c["src"], "upstream_stub": c.get("pyi")})
+  res.cov["k3_reveal_chain"] = k3
   t2 = time.time()
   nreads = 0
   distinct = set()
@@ -859,7 +1057,11 @@ def correspond(res, rng, tier):
       "class attribute x2, method call); 3 transports; each downstream stub type compared order-insensitively with "
       "(a) the driver's reexport of the type declared in the *loaded* upstream unit, (b) the upstream stub type "
       "(property oracle, on the re-parsed stubs), (c) the other transports; error logs must be empty; "
-      "non-trivial = declared type is a container/tuple/union, distinct = distinct canonical declared types.")
+      "non-trivial = declared type is a container/tuple/union, distinct = distinct canonical declared types. "
+      "K3 (the property read literally): chains dep <- a <- b; reveal_type of every public read inside a's own analysis "
+      "against reveal_type of the same expression in b through a's emitted stub, per transport (dep is handed over in "
+      "the same transport), class aliases included; strings compared after flattening unions and the PEP 484 numeric "
+      "promotions; b's error log must be empty.")
   res.cov["distribution"] = {
       "k2": res.cov.pop("k2"), "pairs": len(cases), "pairs_with_upstream_errors_skipped": up_err,
       "transports": TRANSPORTS, "reads_total": nreads, "reads_by_kind": kinds,
@@ -946,6 +1148,40 @@ def search(res, rng, disagreements, pfail):
       found.append({"upstream": program_src(small), "upstream_stub": c.get("pyi"), "downstream": c.get("bsrc"),
                     "failures": oracle_failures(c)[:6],
                     "downstream_stubs": {tr: (c.get("down", {}).get(tr) or {}).get("pyi") for tr in TRANSPORTS}})
+    # K3 chains: a disagreement of the reveal_type oracle is already a failing input of the property; re-confirm it in
+    # a fresh worker and shrink the upstream module by line groups (dep is kept)
+    for d in [x for x in disagreements if x.get("stage") == "K3-oracle"][:2]:
+      if len(found) >= 3:
+        break
+      dsrc, asrc = d["dep"], d["src"]
+      c = pool.map(chain_task, [(0, dsrc, asrc)])[0]
+      if not c.get("bad"):
+        continue
+      sig = sorted({(b.get("transport"), b.get("what") or "type") for b in c["bad"]})
+
+      def fails_chain(lines, dsrc=dsrc, sig=sig):
+        c2 = pool.map(chain_task, [(0, dsrc, "\n".join(lines) + "\n")])[0]
+        return bool(c2.get("bad")) and not c2.get("skipped") and \
+            sorted({(b.get("transport"), b.get("what") or "type") for b in c2["bad"]}) == sig
+      # top-level statements as units (a statement = a line at column 0 plus its indented continuation)
+      units, cur = [], []
+      for l in asrc.split("\n"):
+        if l and not l.startswith(" ") and cur:
+          units.append("\n".join(cur))
+          cur = []
+        if l:
+          cur.append(l)
+      if cur:
+        units.append("\n".join(cur))
+      small = common.ddmin(units, lambda us: fails_chain([l for u in us for l in u.split("\n")]),
+                           budget_s=max(10.0, min(60.0, budget - (time.time() - t0))),
+                           keep=lambda u: u.startswith(("_L", "import dep")))
+      ssrc = "\n".join(small) + "\n"
+      c = pool.map(chain_task, [(0, dsrc, ssrc)])[0]
+      found.append({"dep_module": dsrc, "upstream": ssrc, "upstream_stub": c.get("pyi"),
+                    "failures": (c.get("bad") or d["failures"])[:6],
+                    "what": "reveal_type inside the upstream analysis differs from reveal_type of the same expression "
+                            "downstream through the emitted stub"})
   _cleanup()
   return found
 
